@@ -12,8 +12,6 @@ import (
 	"strings"
 	"testing"
 	"time"
-
-	"github.com/thanos-io/thanos/internal/cortex/querier/queryrange"
 )
 
 type govcReplay struct {
@@ -103,7 +101,7 @@ func TestGovcReplay(t *testing.T) {
 			}
 		}
 	default:
-		start, end, step, iv := r.i64("start"), r.i64("end"), r.i64("step"), r.i64("interval")
+		start, end, step, iv := r.i64("let S"), r.i64("let E"), r.i64("let st"), r.i64("interval")
 		if step > 0 && iv >= 1000000 && start <= end {
 			if m := govcCheckSplit(start, end, step, time.Duration(iv)); m != "" {
 				msgs = append(msgs, m)
